@@ -25,7 +25,9 @@
 #include "stream.h"
 #include "history.h"
 #include "connection.h"
+#include "notify.h"
 #include <sys/socket.h>
+#include <poll.h>
 #include <sys/uio.h>
 
 enum { KBuf = 1, KHmeta, KReply, KRawdata, KGeninfo, KMetabuf, KCxxref, KBare, KStream, KOutLocal, KOutRemote, KIterFile, KMetaNew };
@@ -69,6 +71,7 @@ static size_t create_len;
 static int buf_typed;                /* buffers of this behaviour are arrays of arrays */
 static int peers[2 * MAXO + 2];      /* both ends of the stream socket pairs (closed again at reset) */
 static int npeers;
+static MPT_STRUCT(notify) noti = MPT_NOTIFY_INIT;   /* the notifier: one more holder of stream inputs */
 
 /* ---------- counter values: k, or MAX-k reported relative to the model's Max ---------- */
 static uintptr_t real_of(long long v)
@@ -203,6 +206,15 @@ static void *stream_input(void)
 	int sv[2];
 	MPT_STRUCT(socket) sock;
 	MPT_INTERFACE(input) *in;
+	if (create_len == 1) {
+		/* descriptor class "regular file": the kernel does not let it be polled through epoll */
+		char name[] = "/tmp/verif-c15-XXXXXX";
+		if ((sv[0] = mkstemp(name)) < 0) return 0;
+		unlink(name);
+		sock._id = sv[0];
+		if (!(in = mpt_stream_input(&sock, MPT_STREAMFLAG(RdWr), MPT_ENUM(EncodingCobs), 2))) close(sv[0]);
+		return in;
+	}
 	if (npeers + 2 > (int) (sizeof(peers) / sizeof(*peers)) || socketpair(AF_UNIX, SOCK_STREAM, 0, sv) < 0) return 0;
 	sock._id = sv[0];
 	if (!(in = mpt_stream_input(&sock, MPT_STREAMFLAG(RdWr), MPT_ENUM(EncodingCobs), 2))) {
@@ -291,6 +303,10 @@ static void drv_reset(void)
 {
 	while (npeers) close(peers[--npeers]);
 	close_leftover_fds();
+	{
+		static const MPT_STRUCT(notify) fresh = MPT_NOTIFY_INIT;
+		noti = fresh;
+	}
 	memset(slot, 0, sizeof(slot));
 	memset(objs, 0, sizeof(objs));
 	memset(&inner, 0, sizeof(inner));
@@ -362,6 +378,9 @@ static void emit(struct cmd *c, const char *ret, long long val, const int *was)
 			q -= 1;
 			if (inner._buf->_vptr->get_flags(inner._buf) & MPT_ENUM(BufferShared)) q += 1000;
 		}
+		/* the notifier's own tables are not objects */
+		if (noti._slot._buf && vf_containing(noti._slot._buf)) q -= 1;
+		if (noti._wait._buf && vf_containing(noti._wait._buf)) q -= 1;
 		j_int("quiet", q);
 	}
 	j_int("badfree", vf_badfree);
@@ -475,6 +494,12 @@ static void drv_step(struct cmd *c)
 			create_len = 0;
 			if ((p = obj_create())) raw_unref(p);
 			buf_typed = 0;
+			if (kind == KBuf) (void) mpt_type_traits('c');   /* basic traits table */
+			if (kind == KStream) {
+				/* the notifier's process-global set-up (reference traits of inputs, epoll configuration query) */
+				if ((p = obj_create()) && mpt_notify_add(&noti, POLLIN, (MPT_INTERFACE(input) *) p) < 0) raw_unref(p);
+				mpt_notify_fini(&noti);
+			}
 			while (npeers) close(peers[--npeers]);
 			vf_tag_all(1);
 			if (inner._buf) {
@@ -520,6 +545,7 @@ static void drv_step(struct cmd *c)
 		/* give back everything the harness holds */
 		int k, n;
 		if (copybuf) { MPT_STRUCT(buffer) *b = copybuf; copybuf = 0; b->_vptr->unref(b); }
+		if (kind == KStream) mpt_notify_fini(&noti);
 		for (k = 0; k < nh; k++) {
 			void *p = slot[k];
 			slot[k] = 0;
@@ -671,9 +697,52 @@ static void drv_step(struct cmd *c)
 			if ((nb = b->_vptr->detach(b, sizeof(MPT_STRUCT(array))))) slot[h - 1] = nb;
 		}
 		else if (!strcmp(via, "reserve")) nb = mpt_array_reserve((MPT_STRUCT(array) *) &slot[h - 1], sizeof(MPT_STRUCT(array)), buf_typed ? mpt_array_traits() : 0);
+		else if (!strcmp(via, "reserveother")) {
+			/* another content type than the buffer's: nothing is taken over.  Afterwards the (now private)
+			 * buffer is given the make of this behaviour again (content type, one empty element) */
+			const MPT_STRUCT(type_traits) *own = buf_typed ? mpt_array_traits() : 0;
+			MPT_STRUCT(array) *arr = (MPT_STRUCT(array) *) &slot[h - 1];
+			if ((nb = mpt_array_reserve(arr, sizeof(MPT_STRUCT(array)), buf_typed ? 0 : mpt_type_traits('c')))
+			 && (nb = mpt_array_reserve(arr, sizeof(MPT_STRUCT(array)), own))
+			 && own && !nb->_used
+			 && mpt_buffer_set(nb, own, 0, 0, sizeof(MPT_STRUCT(array))) < 0) nb = 0;
+		}
+		else if (!strcmp(via, "slice")) {
+			nb = mpt_array_slice((MPT_STRUCT(array) *) &slot[h - 1], 0, b->_used) ? (MPT_STRUCT(buffer) *) slot[h - 1] : 0;
+		}
+		else if (!strcmp(via, "insert")) {
+			mpt_array_insert((MPT_STRUCT(array) *) &slot[h - 1], b->_used, 0);
+			nb = (MPT_STRUCT(buffer) *) slot[h - 1];
+		}
+		else if (!strcmp(via, "append")) {
+			/* one raw byte (untyped buffers only); the space of a buffer is never exceeded by a history */
+			if (b->_used + 1 > b->_size) goto bad;
+			nb = mpt_array_append((MPT_STRUCT(array) *) &slot[h - 1], 1, "x") ? (MPT_STRUCT(buffer) *) slot[h - 1] : 0;
+		}
 		else goto bad;
 		if (nb && nb != b) obj_register(nb);
 		emit(c, nb ? "ok" : "refused", -1, was);
+	}
+	else if (!strcmp(a, "nadd")) {
+		/* the notifier takes over the handle's reference when it accepts the input */
+		int rc;
+		if (!h || kind != KStream || !slot[h - 1]) goto bad;
+		rc = mpt_notify_add(&noti, POLLIN, (MPT_INTERFACE(input) *) slot[h - 1]);
+		if (rc >= 0) slot[h - 1] = 0;
+		emit(c, rc < 0 ? "refused" : "ok", -1, was);
+	}
+	else if (!strcmp(a, "nclear")) {
+		MPT_STRUCT(socket) sock = MPT_SOCKET_INIT;
+		int rc;
+		if (!o || kind != KStream || !obj_alive(o)) goto bad;
+		if (MPT_metatype_convert((MPT_INTERFACE(metatype) *) objs[o - 1].ptr, MPT_ENUM(TypeUnixSocket), &sock) < 0) goto bad;
+		rc = mpt_notify_clear(&noti, sock._id);
+		emit(c, rc < 0 ? "refused" : "ok", -1, was);
+	}
+	else if (!strcmp(a, "nfini")) {
+		if (kind != KStream) goto bad;
+		mpt_notify_fini(&noti);
+		emit(c, "ok", -1, was);
 	}
 	else if (!strcmp(a, "clone")) {
 		MPT_INTERFACE(metatype) *mt, *n;
